@@ -6,6 +6,7 @@ Imports nothing outside core Lean and the Mathlib-free Model/Spec/Gen/IO modules
 import Lean.Data.Json
 import SqlLineage.IO.Config
 import SqlLineage.IO.Graph
+import SqlLineage.IO.Sql
 
 open Lean
 
@@ -15,7 +16,10 @@ def handlers : List (String × (Json → Except String Json)) := [
   ("cfgexpand", SqlLineage.IO.Config.handleExpand),
   ("cfgparse", SqlLineage.IO.Config.handleParse),
   ("cfgtable", SqlLineage.IO.Config.handleTable),
-  ("asm", SqlLineage.IO.Graph.handleAsm)
+  ("asm", SqlLineage.IO.Graph.handleAsm),
+  ("sql", SqlLineage.IO.Sql.handleSql),
+  ("render", SqlLineage.IO.Sql.handleRender),
+  ("dispatch", SqlLineage.IO.Sql.handleDispatch)
 ]
 
 def handleLine (line : String) : String :=
